@@ -118,22 +118,96 @@ def bundle_ref_designs():
                 yield (f"bundleref/depth{depth}/{'port' if via_port else 'local'}/{order}", mk(depth, via_port, order))
 
 
+def anon_and_pair_designs():
+    """two anonymous bundles over the SAME referent objects written in the same order under permuted keys (straight, then
+    crossed, and the other way round) on instances of one child; and a module reached ONLY through a Pair which itself
+    holds Pairs (wired by scalars, anonymous bundles, no-connects)"""
+    import hdl21 as h
+    import itertools as it
+
+    def crossed(order, nested):
+        def b():
+            T = h.ExternalModule(name="XProbe", port_list=[h.Inout(name="t")], desc="", domain="cc")
+            Lane = h.Bundle(name="LaneB")
+            Lane.add(h.Signal(name="p"))
+            Lane.add(h.Signal(name="n"))
+            Link = h.Bundle(name="LinkX")
+            if nested:
+                Link.add(Lane(), name="tx")
+                Link.add(Lane(), name="rx")
+            else:
+                Link.add(h.Signal(name="tx"))
+                Link.add(h.Signal(name="rx"))
+            Dev = h.Module(name="XDev")
+            Dev.link = Link(port=True)
+            leaves = [Dev.link.tx.p, Dev.link.tx.n, Dev.link.rx.p, Dev.link.rx.n] if nested else [Dev.link.tx, Dev.link.rx]
+            for k, r in enumerate(leaves):
+                Dev.add(T()(t=r), name=f"pr{k}")
+            m = h.Module(name="XTop")
+            m.l = Link()
+            forms = {"straight": lambda: {"tx": m.l.tx, "rx": m.l.rx}, "crossed": lambda: {"rx": m.l.tx, "tx": m.l.rx},
+                     "crossed-sorted": lambda: {"tx": m.l.rx, "rx": m.l.tx}, "whole": lambda: m.l}
+            for k, f in enumerate(order):
+                m.add(Dev(link=forms[f]()), name=f"d{k}")
+            return m
+        return b
+    for nested in (False, True):
+        for order in it.permutations(("straight", "crossed", "crossed-sorted", "whole"), 3):
+            yield (f"anoncross/{'nested' if nested else 'flat'}/{'+'.join(order)}", crossed(order, nested))
+
+    def pair_in_pair(inner_conn, depth):
+        def b():
+            R = h.R(r=1)
+            Half = h.Module(name="PHalf")
+            Half.a, Half.b, Half.vss = h.Ports(3)
+            Half.mid = h.Diff()
+            conns = {"anon": lambda: h.AnonymousBundle(p=Half.a, n=Half.b), "diff": lambda: Half.mid,
+                     "noconn": lambda: h.AnonymousBundle(p=Half.a, n=h.NoConn())}[inner_conn]()
+            Half.rs = h.Pair(R)(p=conns, n=Half.vss)
+            Half.tie = h.R(r=2)(p=Half.a, n=Half.b)
+            if inner_conn == "diff":
+                Half.rp = h.R(r=3)(p=Half.mid.p, n=Half.a)
+                Half.rn = h.R(r=3)(p=Half.mid.n, n=Half.b)
+            cur = Half
+            for k in range(depth - 1):
+                nxt = h.Module(name=f"PMid{k}")
+                nxt.a, nxt.b, nxt.vss = h.Ports(3)
+                nxt.hs = h.Pair(cur)(a=h.AnonymousBundle(p=nxt.a, n=nxt.b), b=nxt.b, vss=nxt.vss)
+                cur = nxt
+            m = h.Module(name="PTopPair")
+            m.d, m.e = h.Diff(), h.Diff()
+            m.vss = h.Signal()
+            m.hs = h.Pair(cur)(a=m.d, b=m.e, vss=m.vss)
+            return m
+        return b
+    for inner_conn in ("anon", "diff", "noconn"):
+        for depth in (1, 2):
+            yield (f"pairinpair/{inner_conn}/d{depth}", pair_in_pair(inner_conn, depth))
+
+
 def portref_slice_designs():
     """a 4-bit port of a child tied to (a piece of) a 6-bit bus, and another device connected to a slice of the REFERENCE
     `child.p[...]`: every int index and every slice with steps +-1, +-2, for referents that start at bit 0, higher, run
     backwards, or are concatenations; one probe per bus bit"""
     import hdl21 as h
     referents = {"whole4": lambda m: m.b4, "low": lambda m: m.bus[0:4], "high": lambda m: m.bus[2:6], "mid": lambda m: m.bus[1:5],
-                 "rev": lambda m: m.bus[4:0:-1], "cat": lambda m: h.Concat(m.bus[0:2], m.bus[4:6]), "unset": None}
+                 "rev": lambda m: m.bus[4:0:-1], "cat": lambda m: h.Concat(m.bus[0:2], m.bus[4:6]), "unset": None,
+                 # a bundle member (a reference that is itself still to be resolved), whole and inside a concatenation
+                 "bref": lambda m: m.bb.w4, "cat-bref": lambda m: h.Concat(m.bb.w2, m.bus[0:2]),
+                 "bref-slice": lambda m: m.bb.w4[::-1]}
     idxs = list(range(-4, 4)) + [slice(a, b_, c) for c in (None, -1, 2, -2) for a in (None, 0, 1, 3, -1, -2)
                                  for b_ in (None, 0, 2, 4, -1, -5)]
-    for rname, ref in referents.items():
-        for idx in idxs:
-            n = len(list(range(4))[idx]) if isinstance(idx, slice) else 1
+    cases = [(rname, ref, idx, False) for rname, ref in referents.items() for idx in idxs]
+    cases += [(rname, referents[rname], idx, True) for rname in ("low", "bref", "cat-bref", "unset")
+              for idx in list(range(-5, 5)) + [slice(a, b_, c) for c in (None, -1, 2) for a in (None, 1, 3) for b_ in (None, 2, 5)]]
+    for rname, ref, idx, outer in cases:
+        if True:
+            wid = 5 if outer else 4
+            n = len(list(range(wid))[idx]) if isinstance(idx, slice) else 1
             if n == 0:
                 continue
 
-            def b(ref=ref, idx=idx, n=n):
+            def b(ref=ref, idx=idx, n=n, outer=outer):
                 T = h.ExternalModule(name="SProbe", port_list=[h.Inout(name="t")], desc="", domain="cc")
                 W = h.ExternalModule(name=f"SWide{n}", port_list=[h.Inout(name="q", width=n)], desc="", domain="cc")
                 Inner = h.Module(name="SInner")
@@ -146,10 +220,21 @@ def portref_slice_designs():
                     m.add(T()(t=m.bus[k]), name=f"t{k}")
                 for k in range(4):
                     m.add(T()(t=m.b4[k]), name=f"u{k}")
+                BB = h.Bundle(name="SBun")
+                BB.add(h.Signal(name="w4", width=4))
+                BB.add(h.Signal(name="w2", width=2))
+                m.bb = BB()
+                for k in range(4):
+                    m.add(T()(t=m.bb.w4[k]), name=f"v{k}")
+                for k in range(2):
+                    m.add(T()(t=m.bb.w2[k]), name=f"w{k}")
                 m.i = Inner(p=ref(m)) if ref is not None else Inner()
-                m.j = W()(q=m.i.p[idx])
+                if outer:
+                    m.j = W()(q=h.Concat(m.i.p, m.bus[5])[idx])      # the reference inside a concatenation that is sliced
+                else:
+                    m.j = W()(q=m.i.p[idx])
                 return m
-            yield (f"prefslice/{rname}/{idx!r}", b)
+            yield (f"prefslice/{rname}/{'outer-concat/' if outer else ''}{idx!r}", b)
 
 
 def name_pressure_designs():
@@ -324,9 +409,9 @@ def run(ctx):
             ctx.checker_errors.append(f"array rule: only {len(obs)} obligations generated")
         ctx.discharge(obs, c_arrays.KEY + " [per-element loop body]", info)
     ctx.run_bounded(
-        "to_proto-vs-meaning", __import__("itertools").chain(design_family(ctx.tier, ctx.seed), edited_designs(), order_designs(), concat_designs(), bundle_ref_designs(), portref_slice_designs()),
+        "to_proto-vs-meaning", __import__("itertools").chain(design_family(ctx.tier, ctx.seed), edited_designs(), order_designs(), concat_designs(), bundle_ref_designs(), portref_slice_designs(), anon_and_pair_designs()),
         lambda c: check_design(c),
-        rule=RULE + "; plus 60 designs written in several steps (a port re-connected by each of the five operations) and 40 declaration orders of a reference chain ending on slices / concatenations of a driver's ports; every concatenation of two 1-3 bit pieces of a 6-bit bus and every three-piece cut of it in every order (285 designs); references to nested bundle members whose names recur at other levels (12); slices of a port REFERENCE for 7 kinds of referent x every index / slice with steps +-1, +-2 (~800)", bound="depth<=3, widths<=4 (8 thorough), <=4 (6) instances per module",
+        rule=RULE + "; plus 60 designs written in several steps (a port re-connected by each of the five operations) and 40 declaration orders of a reference chain ending on slices / concatenations of a driver's ports; every concatenation of two 1-3 bit pieces of a 6-bit bus and every three-piece cut of it in every order (285 designs); references to nested bundle members whose names recur at other levels (12); slices of a port REFERENCE for 10 kinds of referent (incl. bundle members) x every index / slice with steps +-1, +-2, also through an enclosing concatenation (~1300)", bound="depth<=3, widths<=4 (8 thorough), <=4 (6) instances per module",
         key_of=lambda c: c[0], nontrivial=lambda c: nontrivial(c[0]))
     ctx.run_bounded("to_proto-vs-meaning under name pressure", name_pressure_designs(), check_named,
                     rule="the designs of C05's adversarial-name family (declared names equal to invented ones in both "
@@ -341,7 +426,7 @@ def replay(payload):
     want = (payload.get("input") or {}).get("design")
     if want:
         for desc, b in list(edited_designs()) + list(order_designs()) + list(concat_designs()) + list(bundle_ref_designs()) + \
-                list(portref_slice_designs()):
+                list(portref_slice_designs()) + list(anon_and_pair_designs()):
             if desc == want:
                 r = check_design((desc, b))
                 print("replay:", r)
